@@ -14,7 +14,7 @@ import threading
 
 from harness import common, regfix, tlc
 
-IMPL_RULE = 'maxdef'  # selection rule the as-is model (Strategy.tla Rule) attributes to the code
+IMPL_RULE = 'edf-anytie'  # selection rule the as-is model (Strategy.tla Rule) attributes to the code
 F = fractions.Fraction
 
 
@@ -84,6 +84,9 @@ def abtest_vectors(chk, rnd):
              ['0.5', '0.25', '0.125', None], ['3', None], ['3', '1', None], [None, '2', '4', None], [None, None],
              [None, None, None], ['0.3', '0.3', '0.3', None], ['0.2', '0.2', '0.2', '0.2', None],
              ['7', '5', '3', '2', '1', '1'], ['0.05', '0.15', '0.2', '0.25', '0.3', None], ['10', '1'], ['100', '1', '1']]
+    for _ in range(120 if chk.quick else 0):      # a sample of 5 and 6 variants also in the quick tier
+        k = rnd.randint(5, 6)
+        vecs.append([str(rnd.choice([1, 1, 2, 3, 5, 7])) for _ in range(k)])
     if not chk.quick:
         for _ in range(300):
             k = rnd.randint(2, 6)
@@ -102,13 +105,15 @@ def main(chk):
     rnd = random.Random(chk.seed)
     tmp = os.getcwd()
     # ---- 1. model level: the as-is rule meets the requirement for every weight vector and EVERY n
-    kmax, maxw = (4, 6) if chk.quick else (6, 8)
+    kmax, maxw = (6, 6) if chk.quick else (6, 8)
     for k in range(2, kmax + 1):
-        mw = maxw if k <= 5 else 7
+        mw = maxw if k <= 4 else (5 if chk.quick else 7)
         chk.tlc('Strategy', cfg_strategy(k, mw, IMPL_RULE, os.path.join(tmp, f's{k}.cfg')), require=['Select'], workers=8)
     # the rule of forml <= 0bb2ca9 must be refuted by the same model (the model is able to tell rules apart)
     res = chk.tlc('Strategy', cfg_strategy(3, 4, 'first', os.path.join(tmp, 'f3.cfg')), expect_ok=False, workers=4)
     chk.selftest('model_refutes_first_eligible_rule', res.violated == 'ShareBound')
+    res = chk.tlc('Strategy', cfg_strategy(6, 5, 'maxdef-anytie', os.path.join(tmp, 'm6.cfg')), expect_ok=False, workers=8)
+    chk.selftest('model_refutes_largest_deficit_with_open_ties', res.violated == 'ShareBound')
     chk.extra['abtest_model'] = {'rule': IMPL_RULE, 'variants': f'2..{kmax}', 'weights': f'1..{maxw}',
                                  'request_counts': 'all n (finite deficit graph)'}
 
@@ -120,7 +125,7 @@ def main(chk):
     traces, meta = [], []
     for targets in abtest_vectors(chk, rnd):
         w = exact_shares(targets)
-        n = min(2 * sum(w) + 3, 400)
+        n = min(4 * sum(w) + 3, 400)
         picks = real_abtest_run(root, targets, n)
         traces.append({'w': w, 'picks': picks})
         meta.append({'targets': targets, 'shares': w, 'n': n})
